@@ -23,7 +23,7 @@ SHARDS = {'quick': 16, 'thorough': 64}
 TIMEOUT = {'quick': 1500, 'thorough': 7200}
 MUST_HIT = ['EarlierObject.rechecked', 'Count.association', 'Count.uniqueness', 'Count.is_consistent', 'Count.restricted-rel',
             'Count.restricted-kind', 'Count.subtype', 'Cli.main-return', 'Cli.process-exit-status',
-            'Count.subtype-after-history', 'Cli.bridgepoint-main', 'Cli.bridgepoint-all-associations-all-classes', 'Cli.bridgepoint-r-k',
+            'Cli.exit-status-at-multiple-of-256', 'Count.subtype-after-history', 'Cli.bridgepoint-main', 'Cli.bridgepoint-all-associations-all-classes', 'Cli.bridgepoint-r-k',
             'Cli.bridgepoint-all-associations-k', 'Cli.bridgepoint-r-all-classes', 'Count.null-lowercase-unique_id', 'Count.nonzero-association',
             'Count.nonzero-uniqueness', 'Count.consistent-model']
 MUST_REACH = ['xtuml/consistency_check.py:check_link_integrity',
@@ -322,7 +322,7 @@ def cli_checks(ctx, rng, schema, pop, st, text, tmpdir, process):
                 "sys.argv = ['consistency_check'] + %r; runpy.run_module('xtuml.consistency_check', "
                 "run_name='__main__')" % (ctx.root, args + [path]))
         p = subprocess.run([sys.executable, '-c', boot], env=env, capture_output=True, timeout=120)
-        if (p.returncode != 0) != (exp > 0) or p.returncode not in (0, 1):
+        if (p.returncode != 0) != (exp > 0):
             raise Mismatch('cli/exit-status', 'python -m xtuml.consistency_check %r exited %d with %d '
                            'violations present: %s' % (args, p.returncode, exp, p.stderr[-300:]))
     os.remove(path)
@@ -395,11 +395,39 @@ def bp_cli(ctx, rng, full, tmpdir, process):
                 "sys.argv = ['consistency_check'] + %r; runpy.run_module('bridgepoint.consistency_check', "
                 "run_name='__main__')" % (ctx.root, args + [path]))
         p = subprocess.run([sys.executable, '-c', boot], capture_output=True, timeout=300)
-        if (p.returncode != 0) != (exp > 0) or p.returncode not in (0, 1):
+        if (p.returncode != 0) != (exp > 0):
             raise Mismatch('cli/exit-status', 'python -m bridgepoint.consistency_check %r exited %d with %d '
                            'violations present: %s' % (args, p.returncode, exp, p.stderr[-300:]))
     os.remove(path)
     return exp
+
+
+def exit_status_boundary(ctx, tmpdir):
+    '''models with exactly 256 and 512 violations through the real command line process'''
+    for n in (256, 512):
+        sch = Schema([('A', [('Id', 'INTEGER')]), ('B', [('Id', 'INTEGER'), ('A_Id', 'INTEGER')])],
+                     [Rop(1, 'B', ['A_Id'], 'MC', '', 'A', ['Id'], '1', '')], [])
+        pop = sqlgen.Population(sch)
+        pop.rows['B'] = [dict(Id=i + 1, A_Id=i + 1) for i in range(n)]      # no A at all: n dangling references
+        st = State(sch, pop, sqlgen.join(sch, pop))
+        exp = st.association_violations() + st.uniqueness_violations()[0]
+        if exp != n:
+            raise AssertionError('boundary model has %d violations, wanted %d' % (exp, n))
+        m, text = load(sch, pop)
+        compare_counts(ctx, m, st, 'boundary')
+        path = os.path.join(tmpdir, 'boundary%d.sql' % n)
+        with open(path, 'w', newline='') as f:
+            f.write(text)
+        ctx.hit('Cli.exit-status-at-multiple-of-256')
+        boot = ("import sys; sys.meta_path[:] = [f for f in sys.meta_path if 'editable' not in "
+                "(getattr(f, '__module__', '') or '')]; sys.path.insert(0, %r); import runpy; "
+                "sys.argv = ['consistency_check', %r]; runpy.run_module('xtuml.consistency_check', "
+                "run_name='__main__')" % (ctx.root, path))
+        p = subprocess.run([sys.executable, '-c', boot], env=dict(os.environ, PYTHONPATH=ctx.root),
+                           capture_output=True, timeout=300)
+        os.remove(path)
+        if p.returncode == 0:
+            raise Mismatch('cli/exit-status', 'python -m xtuml.consistency_check exited 0 with %d violations present' % n)
 
 
 def history(ctx, rng, m, st):
@@ -485,6 +513,12 @@ def run(ctx):
                 ctx.case(('subtype', ctx.shard, i), lacking > 0)
             except Mismatch as e:
                 ctx.violation(e.key, e.what, case=dict(part='subtype'))
+        if ctx.shard == 0:
+            try:
+                exit_status_boundary(ctx, tmpdir)
+                ctx.case(('boundary',), True)
+            except Mismatch as e:
+                ctx.violation(e.key, e.what, case=dict(part='exit-status-boundary'))
         full = bp_schema()
         for i in range(ctx.share(48 if ctx.tier == 'quick' else 1600)):
             try:
